@@ -17,6 +17,7 @@
 -/
 import RoProofs.Kernel.Producer
 import RoProofs.Kernel.WellLockedSound
+import RoProofs.Kernel.Overlap
 import RoProps.KernelTie
 namespace Ro.C02
 open Ro.Kernel
@@ -41,6 +42,25 @@ theorem kernel_callbacks_never_overlap_single_producer (mode : Mode) (destNil : 
   intro t u th thu ht hu h1 h2
   have hi := uinv_reachable mode destNil panicky scripts hsp sched
   exact hi.prod.excl hi.k.lock hsp t u th thu ht hu (by simp [h1]) (by simp [h2])
+
+/-- C02(a) on the history: scanning the log of any run, a callback begins only when none is running
+    (`noOverlapLog`, the predicate the harness evaluates on the log recorded from the real subscriber) -/
+theorem kernel_noOverlapLog (mode : Mode) (hm : mode ≠ .unsafeMode) (destNil : Bool)
+    (panicky : List FinId) (scripts : List (List ApiCall)) (sched : List Tid) :
+    noOverlapLog (run Expected.progs (init mode destNil panicky scripts) sched).sh.log = true := by
+  have := run_inv (progs := Expected.progs) (fun s => SInv (idBound scripts) s ∧ OvInv s)
+    (fun _ _ _ hi h => ⟨hi.1.step h, hi.2.step hi.1.k.lock (hi.1.k.lock.excl hi.1.serial) h⟩) sched
+    (init mode destNil panicky scripts) ⟨⟨KInv.init .., hm, GramInv.init ..⟩, OvInv.init ..⟩
+  exact this.2.ok
+
+/-- … and in any mode with one producer thread -/
+theorem kernel_noOverlapLog_single_producer (mode : Mode) (destNil : Bool) (panicky : List FinId)
+    (scripts : List (List ApiCall)) (hsp : SingleProducer scripts) (sched : List Tid) :
+    noOverlapLog (run Expected.progs (init mode destNil panicky scripts) sched).sh.log = true := by
+  have := run_inv (progs := Expected.progs) (fun s => UInv scripts s ∧ OvInv s)
+    (fun _ _ _ hi h => ⟨hi.1.step hsp h, hi.2.step hi.1.k.lock (hi.1.prod.excl hi.1.k.lock hsp) h⟩) sched
+    (init mode destNil panicky scripts) ⟨⟨KInv.init .., ProdInv.init .., GramInv.init ..⟩, OvInv.init ..⟩
+  exact this.2.ok
 
 /-- the lock discipline behind it: in safe / eventually-safe mode a thread's control state holds
     `mu` exactly when the mutex names it the owner, and every thread inside a callback holds `mu` -/
@@ -127,6 +147,8 @@ end Ro.C02
 #print axioms Ro.KernelTie.mutexes_are_the_source
 #print axioms Ro.C02.kernel_callbacks_never_overlap
 #print axioms Ro.C02.kernel_callbacks_never_overlap_single_producer
+#print axioms Ro.C02.kernel_noOverlapLog
+#print axioms Ro.C02.kernel_noOverlapLog_single_producer
 #print axioms Ro.C02.wellLocked_programs_never_overlap
 #print axioms Ro.C02.regenerated_programs_wellLocked
 #print axioms Ro.C02.regenerated_callbacks_never_overlap
